@@ -290,6 +290,12 @@ func init() {
 		zz + "IteInt":  func(w *W, s *State, args []Value) Value { return Ite(term(args[0]), term(args[1]), term(args[2])) },
 		zz + "IteInt64": func(w *W, s *State, args []Value) Value { return Ite(term(args[0]), term(args[1]), term(args[2])) },
 		zz + "IteUint": func(w *W, s *State, args []Value) Value { return Ite(term(args[0]), term(args[1]), term(args[2])) },
+		zz + "InEngine": func(w *W, s *State, args []Value) Value { return TrueT },
+		zz + "ExactIntFloats": func(w *W, s *State, args []Value) Value {
+			exactIntFloats.Store(true)
+			w.e.noteModel("encoding:exact-integer-floats (float64 as int64, range-checked to |x| < 2^53)")
+			return TupleV{}
+		},
 		zz + "MustCover": func(w *W, s *State, args []Value) Value {
 			sl := args[0].(SliceV)
 			if !sl.Nil {
@@ -440,6 +446,15 @@ func init() {
 		"(*sync/atomic.Value).Store": func(w *W, s *State, args []Value) Value {
 			w.store(s, args[0].(PtrV), StructV{[]Value{args[1]}})
 			return TupleV{}
+		},
+		"maps.clone": func(w *W, s *State, args []Value) Value {
+			iv := args[0].(IfaceV)
+			m := iv.V.(MapV)
+			if m.Nil {
+				return iv
+			}
+			md := *s.heap[m.Obj].(*MapData)
+			return IfaceV{T: iv.T, V: MapV{Obj: w.e.alloc(s, &md)}}
 		},
 		"internal/abi.NoEscape":     func(w *W, s *State, args []Value) Value { return args[0] },
 		"internal/abi.Escape":       func(w *W, s *State, args []Value) Value { return args[0] },
